@@ -299,7 +299,7 @@ class ProductType(ParametrizedDependentType):
             else:
                 return Order.NONE
         else:
-            return NotImplemented
+            return super().__type_order__(other)
 
 
 @dependent_check(bound_is_name=True)
